@@ -32,6 +32,9 @@ Oth(s) == [kind |-> "oth", str |-> s]
 \* 11: x = 3 elems, y = 3 elems of other bytes                  (f8)
 \* 12: as 11, the same bytes in the opposite byte order (same shape and item
 \*     size, other values)
+\* 15: x, y square two-dimensional arrays (2 x 2 elements)
+\* 16: their transposes (replay: views of the same memory): same shape, item
+\*     size and memory block - other content, read in index order
 MCPool == (1..7) \cup {9, 10, 11, 12}
 MCArgs(p) ==
     CASE p = 1 -> <<Arr(<<1,2,3,4>>, F8, <<2>>), Arr(<<5,6,7,8>>, F8, <<2>>),
@@ -61,6 +64,12 @@ MCArgs(p) ==
                      Oth(<<2007>>), Oth(<<1001>>), Oth(<<1002>>)>>
       [] p = 14 -> <<Arr(<<1,2,3,4,5,6>>, F8, <<3>>), Arr(<<7,8,9,10,11,12>>, F8, <<3>>),
                      Oth(<<2007>>), Oth(<<1002>>), Oth(<<1001>>)>>
+      [] p = 15 -> <<Arr(<<61,62,63,64,65,66,67,68>>, F8, <<2, 2>>),
+                     Arr(<<71,72,73,74,75,76,77,78>>, F8, <<2, 2>>),
+                     Oth(<<NoneTok>>), Oth(<<NoneTok>>)>>
+      [] p = 16 -> <<Arr(<<61,62,65,66,63,64,67,68>>, F8, <<2, 2>>),
+                     Arr(<<71,72,75,76,73,74,77,78>>, F8, <<2, 2>>),
+                     Oth(<<NoneTok>>), Oth(<<NoneTok>>)>>
       [] p = 8 -> <<Arr(<<1,2,3,4>>, F8, <<2>>), Arr(<<5,6,7,8>>, F8, <<2>>),
                     Arr(<<9,10>>, F8, <<1>>), Arr(<<11,12>>, F8, <<1>>)>>
 \* semantic identity: memory layout is irrelevant (6 = 3)
@@ -74,6 +83,8 @@ HPool == 1..10
 HPool2 == {3, 4, 11, 12}
 \* third replay family: keyword arguments in different orders
 HPool3 == {9, 13, 14}
+\* fourth replay family: a square array and its transpose
+HPool4 == {3, 15, 16}
 
 Depth == TLCGet("level") <= MaxDepth
 
